@@ -16,6 +16,45 @@ def _float_bound_texts(vk):
     return texts
 
 
+SIBLINGS = {
+    "string": ["required", "minlength=2", "maxlength=4", "length=3", "enum=ab,abc,1.2.3.4", "email", "url", "uuid", "alpha", "numeric", "ipv4", "ipv6"],
+    "int": ["required", "gt=1", "gte=2", "lt=9", "lte=8", "enum=1,2,3,9"],
+    "coll": ["required", "minitems=1", "maxitems=3"],
+}
+
+
+def co_marker_scenarios(sid, own, kind, typ, sets_for, aux=None, sibs=None):
+    """Each marker of `own` on a field that also carries one other marker applicable to the type: before it, after it, on the
+    struct declaration, and inside an inline struct.  A rule's verdict never depends on its neighbours.
+    sets_for(path) -> list of value-sets for the field at `path`."""
+    sibs = sibs or SIBLINGS[kind]
+    fields, tl_structs = [], []
+    k = 0
+    nested_groups = []
+    for o in own:
+        for sb in sibs:
+            if sb.split("=")[0] == o.split("=")[0]:
+                continue
+            fields.append(fld("A%d" % k, ["//govalid:" + o, "//govalid:" + sb], typ))
+            fields.append(fld("B%d" % k, ["//govalid:" + sb, "//govalid:" + o], typ))
+            # (a marker on the inline struct itself is the open finding D7 of C07/C09 and is exercised there)
+            nested_groups.append(fld("N%d" % k, [], nested=[fld("In%d" % k, ["//govalid:" + sb, "//govalid:" + o], typ), fld("Free%d" % k, [], typ)]))
+            k += 1
+    paths = [f["names"][0] for f in fields] + ["%s.In%s" % (g["names"][0], g["names"][0][1:]) for g in nested_groups] + ["%s.Free%s" % (g["names"][0], g["names"][0][1:]) for g in nested_groups]
+    per = [sets_for(p) for p in paths]
+    n = max(len(v) for v in per)
+    cases = [case([v[(j + i) % len(v)] for i, v in enumerate(per)]) for j in range(n)] + [case([v[j % len(v)] for v in per]) for j in range(n)]
+    structs = [struct("Co", fields + nested_groups, cases)]
+    for j, sb in enumerate(sibs):
+        fs = [fld("F%d" % i, ["//govalid:" + o], typ) for i, o in enumerate(own) if sb.split("=")[0] != o.split("=")[0]]
+        if not fs:
+            continue
+        per = [sets_for(f["names"][0]) for f in fs]
+        n = max(len(v) for v in per)
+        structs.append(struct("Tl%d" % j, fs, [case([v[(j2 + i) % len(v)] for i, v in enumerate(per)]) for j2 in range(n)], gendoc=["//govalid:" + sb]))
+    return scenario(sid, structs, aux=aux or [])
+
+
 def c01(seed, tier):
     rng = random.Random(seed)
     thorough = tier == "thorough"
@@ -42,6 +81,8 @@ def c01(seed, tier):
                     btexts = _float_bound_texts(t["vk"])
                     if not thorough:
                         btexts = rng.sample(btexts, 5)
+                    if op in ("gt", "lte"):
+                        btexts += ["1_000.5", "1_0.2_5e0_1"]                 # digit separators are legal in float literals too
                 fields = []
                 for k, bt in enumerate(btexts):
                     f = fld("F%d" % k, ["//govalid:%s=%s" % (op, bt)], fields_t)
@@ -76,6 +117,11 @@ def c01(seed, tier):
     # kinds on one field, and a named float type
     i64, u8, f32 = basic("int64"), basic("uint8"), basic("float32")
     auxc, cels = named("Celsius", f32)
+    dur = T("time.Duration", "TNamed (TBasic (BInt I64))", "int")
+    ext = struct("Ext", [fld("Wait", ["//govalid:gt=0", "//govalid:lte=1000000000"], dur), fld("Ptr", ["//govalid:gte=16"], basic("uintptr")),
+                         fld("Month", ["//govalid:gte=1", "//govalid:lte=12"], T("time.Month", "TNamed (TBasic (BInt IInt))", "int"))],
+                 [case([set_int("Wait", a), set_int("Ptr", b), set_int("Month", c)]) for a, b, c in
+                  [(0, 0, 0), (1, 15, 1), (10 ** 9, 16, 12), (10 ** 9 + 1, 17, 13), (-1, 2 ** 40, -1), (5, 100, 6)]])
     lim = struct("Limits", [fld("Plain", [], basic("int")), fld("High", ["//govalid:gt=10"], i64), fld("Small", ["//govalid:lte=20"], u8),
                             fld("Temp", ["//govalid:gt=36.5"], cels), fld("Band", ["//govalid:gt=7", "//govalid:lt=9", "//govalid:gte=8", "//govalid:lte=8"], i64)],
                  [case([set_int("Plain", a), set_int("High", b), set_int("Small", c), set_f32("Temp", f32bits(d)), set_int("Band", e)])
@@ -83,12 +129,19 @@ def c01(seed, tier):
                                         (100, 100, 6, 36.6, 8), (6, 200, 19, 1e9, 8)]],
                  gendoc=["//govalid:gt=5", "//govalid:lte=100"])
     scen.append(scenario("c01both", [lim], aux=[auxc]))
+    scen.append(scenario("c01ext", [ext], imports=["time"]))
     # bounds written as float literals with an integral value (valid untyped constants for integer fields): the comparison is
     # exact integer comparison, also above 2^53
     auxk, cents = named("Cents", i64)
     big = [("Amount", basic("uint64"), "lte", "1e18", 10 ** 18), ("Seq", i64, "gt", "9.007199254740992e15", 2 ** 53), ("Limit", cents, "lt", "1e18", 10 ** 18),
            ("Floor", i64, "gte", "-1e18", -10 ** 18), ("Small", basic("int32"), "lt", "1e3", 1000), ("Hex", basic("uint64"), "gte", "0x1p60", 2 ** 60),
-           ("Dot", i64, "lte", "5.0", 5)]
+           ("Dot", i64, "lte", "5.0", 5),
+           # literals at and above 2^63 in every spelling Go accepts (they fit no signed 64-bit parse)
+           ("Top", basic("uint64"), "lt", "0xFFFFFFFFFFFFFFFF", 2 ** 64 - 1), ("Half", basic("uint64"), "gte", "0x8000_0000_0000_0000", 2 ** 63),
+           ("Bin", basic("uint64"), "gt", "0b1" + "0" * 63, 2 ** 63), ("Und", basic("uint64"), "lte", "9_223_372_036_854_775_808", 2 ** 63),
+           ("Oct", basic("uint64"), "lt", "0o1777777777777777777777", 2 ** 64 - 1), ("Leg", basic("uint64"), "gte", "01000000000000000000000", 2 ** 63),
+           ("UP", basic("uintptr"), "lt", "0XFFFF_FFFF_FFFF_FFFE", 2 ** 64 - 2), ("Neg", i64, "gte", "-0x8000000000000000", -2 ** 63),
+           ("NegU", i64, "gt", "-9_223_372_036_854_775_807", -2 ** 63 + 1)]
     bfields = [fld(nm, ["//govalid:%s=%s" % (op, txt)], t) for nm, t, op, txt, _ in big]
     bcases = []
     for delta in (-65, -64, -2, -1, 0, 1, 2, 64, 65):
@@ -98,6 +151,8 @@ def c01(seed, tier):
             sets.append(set_int(nm, min(hi, max(lo, n + delta))))
         bcases.append(case(sets))
     scen.append(scenario("c01exp", [struct("Ledger", bfields, bcases)], aux=[auxk]))
+    scen.append(co_marker_scenarios("c01coi", ["gt=3", "gte=3", "lt=3", "lte=3"], "int", i64, lambda p: [set_int(p, z) for z in (-1, 0, 1, 2, 3, 4, 8, 9, 10)]))
+    scen.append(co_marker_scenarios("c01cou", ["gt=0", "lte=0", "gte=1", "lt=1"], "int", u8, lambda p: [set_int(p, z) for z in (0, 1, 2, 3, 8, 9, 255)]))
     return {"scenarios": scen}
 
 
@@ -182,6 +237,10 @@ def c02(seed, tier):
                    case([set_str("UserID", b"u"), set_str("User.ID", b"i"), set_coll("UserTags", False, 1)]),
                    case([set_str("UserID", b"u"), set_str("User.ID", b"i"), set_coll("User.Tags", False, 1), set_coll("UserTags", False, 0)])])
     scen.append(scenario("c02coll", [coll]))
+    scen += override_shapes("c02")
+    scen.append(co_marker_scenarios("c02cos", ["required"], "string", st, lambda p: [set_str(p, v) for v in (b"", b"a", b"ab", b"abc", b"abcde", b"1.2.3.4", b"12", b" ")]))
+    scen.append(co_marker_scenarios("c02coi", ["required"], "int", basic("int32"), lambda p: [set_int(p, z) for z in (0, 1, 2, 3, 8, 9, 10, -1)]))
+    scen.append(co_marker_scenarios("c02coc", ["required"], "coll", SLICE, lambda p: [set_coll(p, True, 0), set_coll(p, False, 0), set_coll(p, False, 1), set_coll(p, False, 4)]))
     return {"scenarios": scen}
 
 
@@ -224,7 +283,10 @@ def c03(seed, tier):
             fields.append(fld("%sA%d" % (marker.capitalize()[:3], n), ["//govalid:%s=%d" % (marker, n)], text))
     names = [f["names"][0] for f in fields]
     cases = [case([set_str(nm, s) for nm in names]) for s in strings]
-    return {"scenarios": [scenario("c03", [struct("T", fields, cases)], aux=[a_text])]}
+    covals = [b"", b"a", b"ab", b"abc", b"abcd", b"abcde", "日本語".encode(), b"1.2.3.4", b"12", b"\xff\xfe\xfd", b"a@b.c", b"   "]
+    co = co_marker_scenarios("c03co", ["minlength=3", "maxlength=3", "length=3"], "string", basic("string"),
+                             lambda p: [set_str(p, v) for v in covals])
+    return {"scenarios": [scenario("c03", [struct("T", fields, cases)], aux=[a_text]), co]}
 
 
 def c04(seed, tier):
@@ -272,7 +334,12 @@ def c04(seed, tier):
     for ln in (0, 4, 5, 6, 7, 8, 9, 10, 11, 14, 15, 16, 17, 999, 1000, 1001):
         lcases.append(case([set_coll(f["names"][0], False, ln) for f in lfields if f["type"]["vk"] == "coll"]))
     lit = struct("L", lfields, lcases)
-    return {"scenarios": [scenario("c04", [top, nested, lit], aux=aux)]}
+    cos = []
+    for tag, t in (("sl", SLICE), ("mp", MAP), ("ch", CHAN), ("nsl", dict(SLICE, go="NSl", model="TNamed (TSlice)"))):
+        cos.append(co_marker_scenarios("c04co" + tag, ["minitems=2", "maxitems=2", "minitems=1"], "coll", t,
+                                       lambda p: [set_coll(p, True, 0), set_coll(p, False, 0), set_coll(p, False, 1), set_coll(p, False, 2), set_coll(p, False, 3), set_coll(p, False, 4)],
+                                       aux=[x for x in aux if x.startswith("type NSl ")] if tag == "nsl" else None))
+    return {"scenarios": [scenario("c04", [top, nested, lit], aux=aux)] + cos}
 
 
 def c05(seed, tier):
@@ -281,16 +348,19 @@ def c05(seed, tier):
     string_lists = [
         "a,b,c", " admin , user,guest ", "x", "a,a,b", "A,a", "on,off, ", "with space,two  spaces", 'q"uote,back\\slash',
         "é,ü,日本", "a, b ,c,d,e,f,g,h", ",", "true,false",
+        # every blank of unicode.IsSpace next to a separating comma is trimmed, not only space and tab
+        "red,\u00a0green,blue", "low,\u3000mid\u3000,high", "north\x0b,south", "p\u0085,\u2003q\u2009,\u2028r,s\u205f,\u1680t\u202f",
+        "u\x0c,\x0cv", "in\u00a0ner,w\u3000x",
     ]
     fields = []
     values = {}
     for i, lst in enumerate(string_lists):
         nm = "S%d" % i
         fields.append(fld(nm, ["//govalid:enum=" + lst], basic("string")))
-        items = [x.strip(" \t") for x in lst.split(",")]
-        cand = set(items)
+        items = [x.strip() for x in lst.split(",")]
+        cand = set(items) | set(lst.split(","))
         for it in items:
-            cand.update({it.upper(), it.lower(), it[:-1], it + "x", " " + it, it + " "})
+            cand.update({it.upper(), it.lower(), it[:-1], it + "x", " " + it, it + " ", "\u00a0" + it, it + "\u3000"})
         cand.update({"", " ", "zzz"})
         values[nm] = [set_str(nm, c) for c in sorted(cand)]
     a, role = named("Role", basic("string"))
@@ -335,7 +405,10 @@ def c05(seed, tier):
     cases = []
     for k in range(maxv):
         cases.append(case([vs[k % len(vs)] for vs in values.values()]))
-    return {"scenarios": [scenario("c05", [struct("T", fields, cases)], aux=[a, a2, a3])]}
+    cos = [co_marker_scenarios("c05cos", ["enum=ab,abcd,1.2.3.4,12"], "string", basic("string"),
+                               lambda p: [set_str(p, v) for v in (b"", b"a", b"ab", b"abc", b"abcd", b"1.2.3.4", b"12", b"abcde")]),
+           co_marker_scenarios("c05coi", ["enum=0,3,9"], "int", basic("int16"), lambda p: [set_int(p, z) for z in (-1, 0, 1, 2, 3, 4, 8, 9, 10)])]
+    return {"scenarios": [scenario("c05", [struct("T", fields, cases)], aux=[a, a2, a3])] + cos}
 
 
 FORMAT_MEMBERS = {
@@ -404,7 +477,15 @@ def c06(seed, tier):
             sets.append(set_str("In.I_" + m, s))
             sets.append(set_str("In.Deep.D_" + m, s))
         cases.append(case(sets))
-    return {"scenarios": [scenario("c06", [struct("T", fields, cases)], aux=[a_alias])]}
+    # two fields whose dot-free paths spell the same letters (Up.Link.X / UpLink.X / UpLinkX): each keeps its own check
+    st = basic("string")
+    hosts = struct("Hosts", [fld("Up", [], nested=[fld("Link", [], nested=[fld("X" + m, ["//govalid:" + m], st) for m in markers])]),
+                             fld("UpLink", [], nested=[fld("X" + m, ["//govalid:" + m], st) for m in markers])],
+                   [case([set_str(pre + "X" + m, strs[m][(k + off) % len(strs[m])]) for m in markers for pre, off in (("Up.Link.", 0), ("UpLink.", 3))]) for k in range(12)])
+    covals = [b"", b"a", b"ab", b"abc", b"1.2.3.4", b"12", b"::1", b"a@b.c", b"http://a.b", b"550e8400-e29b-41d4-a716-446655440000", b"abcde"]
+    co = co_marker_scenarios("c06co", markers, "string", st, lambda p: [set_str(p, v) for v in covals],
+                             sibs=["required", "minlength=2", "enum=ab,abc,1.2.3.4", "numeric"])
+    return {"scenarios": [scenario("c06", [struct("T", fields, cases)], aux=[a_alias]), co], "hosts": {"scenarios": [scenario("c06hosts", [hosts])]}}
 
 
 # ----------------------------------------------------------------------------- random structs (C07, C08, C09, C15-C17, C19)
@@ -611,6 +692,7 @@ def c07(seed, tier):
         scen.append(scenario("c07s%d" % i, [struct("T", fields, cases, gendoc=gendoc)]))
     scen += name_variety("c07n")
     scen += override_shapes("c07")
+    scen += deep_siblings("c07")
     scen += unmarked_nested_first("c07")
     scen += known_shapes("c07k")
     return {"scenarios": scen}
@@ -665,7 +747,59 @@ def override_shapes(prefix):
     first = struct("First", [fld("A", ["//govalid:enum=x"], s), fld("B", [], s), fld("C", [], s)],
                    [case([set_str("A", b"x"), set_str("B", b"y"), set_str("C", b"z")]), case([set_str("A", b"y"), set_str("B", b"x"), set_str("C", b"q")]), case([])],
                    gendoc=["//govalid:enum=x,y,z"])
-    return [scenario(prefix + "ovr", [prof, first])]
+    # the FIRST field repeats parameterless struct-level markers; every later field (each kind of zero value) still gets them
+    acct = struct("Account", [fld("ID", ["//govalid:required", "//govalid:maxlength=5"], s), fld("Owner", [], s), fld("Quota", [], i64), fld("Tags", [], SLICE),
+                              fld("Parent", [], POINTER), fld("Mid", ["//govalid:required"], i64), fld("Last", [], s)],
+                  [case([]), case([set_str("ID", b"abcdef"), set_str("Owner", b"o"), set_int("Quota", 1), set_coll("Tags", False, 0), set_nilable("Parent", False), set_int("Mid", 2), set_str("Last", b"l")]),
+                   case([set_str("ID", b"id"), set_str("Owner", b"owner-too-long"), set_coll("Tags", False, 2), set_int("Mid", 0), set_str("Last", b"")]),
+                   case([set_str("Owner", b"o"), set_int("Quota", 0), set_nilable("Parent", True), set_str("Last", b"x")])],
+                  gendoc=["//govalid:required", "//govalid:maxlength=10"])
+    return [scenario(prefix + "ovr", [prof, first, acct])]
+
+
+def deep_siblings(prefix):
+    """inline structs nested eight levels deep with marked sibling structs before and after the descending one at every level
+    (whatever the analyzer accumulates along the way down must not be shared between siblings), and a pair of siblings
+    whose marked fields have the same name but different rules"""
+    s, i64 = basic("string"), basic("int")
+    leaves = []       # (path, kind)
+
+    def lvl(k, prefix_):
+        if k > 8:
+            leaves.append((prefix_ + "Leaf", "req"))
+            return [fld("Leaf", ["//govalid:required"], s)]
+        leaves.append((prefix_ + "A%d.Xa%d" % (k, k), "req"))
+        leaves.append((prefix_ + "B%d.Xb%d" % (k, k), "max3"))
+        leaves.append((prefix_ + "V%d" % k, "gt0"))
+        down = lvl(k + 1, prefix_ + "L%d." % k)
+        return [fld("A%d" % k, [], nested=[fld("Xa%d" % k, ["//govalid:required"], s), fld("Pad", [], i64)]),
+                fld("L%d" % k, [], nested=down),
+                fld("B%d" % k, [], nested=[fld("Xb%d" % k, ["//govalid:maxlength=3"], s)]),
+                fld("V%d" % k, ["//govalid:gt=0"], i64)]
+    fields = lvl(1, "")
+
+    def sets(sel):
+        out = []
+        for i, (pth, kind) in enumerate(leaves):
+            good = sel(i)
+            if kind == "req":
+                out.append(set_str(pth, b"ok" if good else b""))
+            elif kind == "max3":
+                out.append(set_str(pth, b"abc" if good else b"abcd"))
+            else:
+                out.append(set_int(pth, 1 if good else 0))
+        return out
+    cases = [case([]), case(sets(lambda i: True)), case(sets(lambda i: False)), case(sets(lambda i: i % 2 == 0)), case(sets(lambda i: i % 2 == 1)),
+             case(sets(lambda i: i % 3 == 0)), case(sets(lambda i: i % 5 != 0))]
+    for k in range(len(leaves)):
+        cases.append(case(sets(lambda i, k=k: i != k)))
+    cfg = struct("Config", [fld("Server", [], nested=[fld("TLS", [], nested=[fld("Certs", [], nested=[
+        fld("Primary", [], nested=[fld("File", ["//govalid:required"], s)]),
+        fld("Backup", [], nested=[fld("File", ["//govalid:maxlength=8"], s)]),
+        fld("Extra", [], nested=[fld("Key", ["//govalid:minlength=2"], s)])])])])],
+        [case([set_str("Server.TLS.Certs.Primary.File", a), set_str("Server.TLS.Certs.Backup.File", b), set_str("Server.TLS.Certs.Extra.Key", c)])
+         for a in (b"", b"p.pem") for b in (b"", b"b.pem", b"much-too-long.pem") for c in (b"", b"kk")])
+    return [scenario(prefix + "deep8", [struct("T", fields, cases), cfg])]
 
 
 def unmarked_nested_first(prefix):
@@ -816,6 +950,7 @@ def c09(seed, tier):
                 case([set_str("A", b"y"), set_str("B", b"q"), set_str("C", b"y")])],
                gendoc=["//govalid:enum=x,y,q", "//govalid:required"])]))
     scen += override_shapes("c09")
+    scen += deep_siblings("c09")
     scen += unmarked_nested_first("c09")
     # embedded fields
     scen.append(scenario("c09emb", [
@@ -947,6 +1082,15 @@ def c15(seed, tier):
         cases.append(case([], nil=True))
         aux = [OTHER_STRUCT_AUX] if nm == "emptycond" else []
         scen.append(scenario("c15" + nm, [struct("T", fields, cases, gendoc=gendoc)], aux=aux))
+    # a validated struct embedded (by value, by pointer) in another validated struct: the outer type has its own four entry
+    # points although the embedded one promotes equally named methods (also when its validator file already exists)
+    audit = struct("Audit", [fld("CreatedBy", ["//govalid:required"], s)], with_ctx_flips([case([]), case([set_str("CreatedBy", b"ops")])], 3))
+    obase = [case([set_int("Quantity", 0), set_str("Note", b"")]), case([set_int("Quantity", 2), set_str("Note", b"n")]), case([set_int("Quantity", 0), set_str("Note", b"n")])]
+    order = struct("Order", [fld([], [], T("Audit", "TNamed TStructT", "opaque")), fld("Quantity", ["//govalid:gt=0"], i64), fld("Note", ["//govalid:required"], s)],
+                   with_ctx_flips(obase, 5) + [case([], nil=True, flip=0), case([], nil=True)], file="y")
+    ship = struct("Ship", [fld("Quantity", ["//govalid:gt=0"], i64), fld([], [], T("*Audit", "TPointer", "nilable")), fld("Note", ["//govalid:required"], s)],
+                  with_ctx_flips(obase, 5), file="z")
+    scen.append(scenario("c15embed", [audit, order, ship]))
     for i in range(6 if tier == "quick" else 40):
         fields, lat = rand_struct(rng, "T", rng.randint(1, 8), 2 if i % 2 else 0)
         base = cases_from_lattices(rng, lat, 4, 0)
